@@ -299,6 +299,66 @@ def gen_built(rng):
     return stmts, env
 
 
+# ---------------------------------------------------------------- deep acyclic nesting
+# encoding/json reads documents nested up to 10000 containers deep (deeper input is a JSON error: C20's subject), so every
+# depth up to that is a document the property speaks about; nothing on the way out may mistake depth for a cycle.  The
+# texts are generated compact and canonical (no whitespace, keys ascending, numbers in shortest form, no character Go
+# escapes) so that the expected output is the text itself once the indentation is taken out: Python's recursive parser
+# cannot read them.
+DECODER_LIMIT = 10000
+DEEP_LEVELS = {"arr": [("[", "]")], "obj": [('{"k":', "}")], "alt": [("[", "]"), ('{"k":', "}")],
+               "mix": [("[", "]"), ('{"k":', "}"), ("[0,", "]"), ("[", ",null]"), ('["s",', ",[]]"), ('{"a":1,"k":', "}"),
+                       ('{"k":', ',"z":{}}'), ('{"a":[],"k":', ',"z":"s"}'), ("[[],{},", ",true]")]}
+DEEP_LEAVES = [("1", "1"), ('"s"', "'s'"), ("null", "null"), ("true", "true"), ("[]", "[]"), ("{}", "{}"), ("0.5", "0.5"), ("-3", "-3")]
+
+
+def deep_text(rng, depth, shape, leaf):
+    """compact text with `depth` containers around the leaf; shape alt alternates from the outside, mix draws every level"""
+    lv = DEEP_LEVELS[shape]
+    opens, closes = [], []
+    for i in range(depth):
+        o, c = rng.choice(lv) if shape == "mix" else lv[i % len(lv)]
+        opens.append(o)
+        closes.append(c)
+    closes.reverse()
+    return "".join(opens) + leaf + "".join(closes)
+
+
+def deep_built(depth, shape, leaf_doc, leaf_src):
+    """(statements, compact text) of a value wrapped `depth` times by a loop: [v], {k: v} or the two in turn (innermost = array)"""
+    if shape == "arr":
+        wrap = "v = [v]"
+    elif shape == "obj":
+        wrap = "v = {k: v}"
+    else:
+        wrap = "if (i % 2 == 0) { v = [v] } else { v = {k: v} }"
+    stmts = "v = %s\n for (i = 0; i < %d; i++) {\n  %s\n }" % (leaf_src, depth, wrap)
+    opens, closes = [], []
+    for lvl in range(depth):                # lvl counts from the outside; the wrap applied at iteration i sits at level depth-1-i
+        i = depth - 1 - lvl
+        arr = shape == "arr" or (shape == "alt" and i % 2 == 0)
+        opens.append("[" if arr else '{"k":')
+        closes.append("]" if arr else "}")
+    closes.reverse()
+    return stmts, "".join(opens) + leaf_doc + "".join(closes)
+
+
+def strip_indent(data):
+    return bytes(data).translate(None, b" \n")
+
+
+def deep_diff(data, want, what):
+    """the indentation taken out, the output must be the canonical text"""
+    got = strip_indent(data)
+    want = want.encode()
+    if got == want:
+        return None
+    n = min(len(got), len(want))
+    k = next((i for i in range(n) if got[i] != want[i]), n)
+    return "%s differs from the value: %d bytes of JSON expected, %d written, first difference at byte %d (%r vs %r)" % (
+        what, len(want), len(got), k, got[k:k + 20], want[k:k + 20])
+
+
 # ---------------------------------------------------------------- the check
 
 class C04(Check):
@@ -309,6 +369,8 @@ class C04(Check):
             "pattern and by a list of boundary spellings) through the identity program (json field = what -o writes), through -r "
             "selectors of sub-documents, through print json($) for the whole document and per element; values built by programs "
             "(auto-created containers, shared and cyclic structures of 1-4 containers, functions, non-finite numbers, regexes); "
+            "acyclic nesting of every depth up to the decoder's limit of 10000 (arrays, objects, alternating, mixed with siblings, "
+            "every leaf kind; read from a document or wrapped by a loop; depths to 72 against the model, the rest on the binary); "
             "oracle: Python's strict parser reads the output and the value equals what it reads from the input (doubles bit for "
             "bit); cyclic/inexpressible => error outcome.  non-trivial = the value contains a container")
 
@@ -329,6 +391,11 @@ class C04(Check):
         for t in ["[]", "{}", "[[]]", "{\"a\":[]}", "[{}]", "0", "-0", "\"\"", "null", "[[],[]]", "{\"a\":{},\"b\":[]}",
                   "[1,[],2]", "[null]", "{\"\":[]}", " [ ] ", "[[[[[[[[[[[[]]]]]]]]]]]]", "{\"a\":{\"a\":{\"a\":{\"a\":{}}}}}"]:
             self.doc_cases(rng, "f%d" % len(self.cases), t, loads(t), True, all_forms=True)
+        # nesting well beyond what the random documents reach, still small enough for the model (its cost grows fast with depth)
+        depths = [rng.randint(10, 24), rng.randint(25, 48), rng.randint(49, 72)] if tier == "quick" else list(range(10, 73, 2))
+        for d in depths:
+            for shape in (["arr", "obj", "alt", "mix"] if tier != "quick" else rng.sample(["arr", "obj", "alt", "mix"], 2)):
+                self.deep_cases(rng, "n%d%s" % (d, shape), d, shape)
         n_prog = 300 if tier == "quick" else 6000
         for i in range(n_prog):
             self.prog_cases(rng, "p%d" % i, i)
@@ -358,6 +425,19 @@ class C04(Check):
                 self.add(cid + "j", prog, [doc], (), {"form": "stdout", "doc": doc, "path": []}, nontrivial)
             elif form == "elements":
                 self.add(cid + "e", "{ print json($) }", [doc], (), {"form": "elements", "doc": doc}, nontrivial)
+
+    def deep_cases(self, rng, cid, d, shape):
+        leaf_doc, leaf_src = rng.choice(DEEP_LEAVES)
+        doc = deep_text(rng, d, shape, leaf_doc)
+        self.add(cid + "i", "{}", [doc], (), {"form": "deeproot", "depth": d, "shape": shape, "expect_compact": doc}, True, ("deep",))
+        self.add(cid + "j", "BEGINFILE { print json($) }", [doc], (), {"form": "deepstdout", "depth": d, "shape": shape,
+                                                                      "expect_compact": doc}, True, ("deep",))
+        if shape != "mix":
+            stmts, text = deep_built(d, shape, leaf_doc, leaf_src)
+            self.add(cid + "b", "{ %s\n $ = v }" % stmts, ["0"], (), {"form": "deeproot", "depth": d, "shape": shape,
+                                                                     "expect_compact": text}, True, ("deep",))
+            self.add(cid + "c", "BEGIN { %s\n print json(v) }" % stmts, [], (), {"form": "deepstdout", "depth": d, "shape": shape,
+                                                                                "expect_compact": text}, True, ("deep",))
 
     def prog_cases(self, rng, cid, i):
         kind = i % 5
@@ -431,6 +511,14 @@ class C04(Check):
             return "the run did not finish (JSON conversion must terminate)"
         if impl.outcome in ("panic", "crash", "raw", "noresult"):
             return "outcome %s" % impl.outcome
+        if form in ("deeproot", "deepstdout"):
+            if impl.outcome != "ok":
+                return "a value nested %d deep (acyclic) was refused: outcome %s" % (m["depth"], impl.outcome)
+            if form == "deeproot":
+                if impl.json in ("!", "P", "~", "?"):
+                    return "-o payload: no JSON produced (%s) for a value nested %d deep" % (impl.json, m["depth"])
+                return deep_diff(unhx(impl.json), m["expect_compact"], "-o payload")
+            return deep_diff(impl.stdout, m["expect_compact"], "json(v)")
         if form in ("root", "stdout", "elements"):
             want = at_path(loads(m["doc"]), m.get("path", []))
             if impl.outcome != "ok":
@@ -517,9 +605,87 @@ class C04(Check):
                     why = self.judge_binary(m, mode, p, outp)
                     if why:
                         viol.append((Case(c.id + mode, None, dict(m, mode=mode, argv=args[1:])), "binary: " + why))
+            ndeep = self.deep_binary(rng, tier, d, viol)
         finally:
             shutil.rmtree(d, ignore_errors=True)
-        return viol, {"binary_runs": n}
+        return viol, {"binary_runs": n, "deep_binary_runs": ndeep}
+
+    def deep_binary(self, rng, tier, d, viol):
+        """documents and program-built values nested up to the decoder's limit, through the real binary: -o FILE of the
+        untouched document, print json($), and the same for a value wrapped by a loop.  The output of a value nested n deep
+        is about 2n^2 bytes of indentation, so it goes to a file and is compared with the indentation taken out."""
+        lim = DECODER_LIMIT
+        if tier == "quick":
+            depths = [rng.randint(73, 400), rng.randint(400, 2000), rng.randint(2000, 4000), rng.randint(4000, 4200),
+                      rng.randint(4200, 7000), rng.randint(7000, lim - 1), lim]
+        else:
+            depths = sorted(set([100, 255, 256, 257, 1000, 1023, 1024, 1025, 2047, 2048, 2049, 4094, 4095, 4096, 4097, 4098, 4099, 5000,
+                                 8191, 8192, 8193, lim - 2, lim - 1, lim] + [rng.randint(73, lim) for _ in range(12)]))
+        runs = []
+        for k, depth in enumerate(depths):
+            shape = rng.choice(["arr", "obj", "alt", "mix"])
+            leaf_doc, leaf_src = rng.choice(DEEP_LEAVES)
+            forms = ["doc-o", "doc-json"] if tier != "quick" else [rng.choice(["doc-o", "doc-json"])]
+            for form in forms:
+                runs.append((depth, shape, leaf_doc, leaf_src, form))
+            if tier != "quick" or k % 2 == 0 or depth == lim:
+                bshape = shape if shape != "mix" else rng.choice(["arr", "obj", "alt"])
+                bforms = ["built-o", "built-json"] if tier != "quick" else [rng.choice(["built-o", "built-json"])]
+                for form in bforms:
+                    runs.append((depth, bshape, leaf_doc, leaf_src, form))
+        n = 0
+        for depth, shape, leaf_doc, leaf_src, form in runs:
+            n += 1
+            inp, outp, progp = os.path.join(d, "deep.json"), os.path.join(d, "deep.out"), os.path.join(d, "deep.prog")
+            wraps = depth - 1 if leaf_doc in ("[]", "{}") else depth       # an empty container at the bottom is a level itself
+            if form.startswith("doc"):
+                text = deep_text(rng, wraps, shape, leaf_doc)
+                doc = text
+                prog = "{}" if form == "doc-o" else "BEGINFILE { print json($) }"
+            else:
+                stmts, text = deep_built(wraps, shape, leaf_doc, leaf_src)
+                doc = "0"
+                prog = "{ %s\n $ = v }" % stmts if form == "built-o" else "BEGINFILE { %s\n print json(v) }" % stmts
+            with open(inp, "w") as f:
+                f.write(doc)
+            with open(progp, "w") as f:
+                f.write(prog)
+            if os.path.exists(outp):
+                os.remove(outp)
+            meta = {"form": "deep " + form, "depth": depth, "shape": shape, "leaf": leaf_doc, "prog": prog,
+                    "input_summary": "%d bytes, %d containers around the leaf %s" % (len(doc), wraps, leaf_doc), "input": doc}
+            to_file = form.endswith("-o")
+            args = [JQAWK] + (["-o", outp] if to_file else []) + ["-f", progp, inp]
+            meta["argv"] = args[1:]
+            try:
+                if to_file:
+                    p = subprocess.run(args, stdin=subprocess.DEVNULL, stdout=subprocess.PIPE, stderr=subprocess.PIPE, timeout=120)
+                else:
+                    with open(outp, "wb") as fo:
+                        p = subprocess.run(args, stdin=subprocess.DEVNULL, stdout=fo, stderr=subprocess.PIPE, timeout=120)
+            except subprocess.TimeoutExpired:
+                viol.append((Case("deep%d%s" % (depth, form), None, meta), "binary did not finish within 120 s on a value nested %d deep" % depth))
+                continue
+            why = None
+            if b"goroutine " in p.stderr or b"panic:" in p.stderr:
+                why = "crash trace on stderr"
+            elif p.returncode != 0:
+                why = "an acyclic value nested %d deep (the decoder reads %d) was refused: exit status %d, %r" % (
+                    depth, lim, p.returncode, p.stderr[-100:])
+            elif to_file and p.stdout:
+                why = "-o FILE wrote to stdout"
+            elif not os.path.exists(outp):
+                why = "-o FILE not written"
+            else:
+                with open(outp, "rb") as f:
+                    data = f.read()
+                why = deep_diff(data, text, "-o FILE" if to_file else "print json(v)")
+                del data
+            if os.path.exists(outp):
+                os.remove(outp)
+            if why:
+                viol.append((Case("deep%d%s" % (depth, form), None, meta), "binary: " + why))
+        return n
 
     def judge_binary(self, m, mode, p, outp):
         if b"goroutine " in p.stderr or b"panic:" in p.stderr:
